@@ -407,6 +407,7 @@ func c041(c *an.Ctx, p *an.Prog) {
 		}})
 	}
 	c041codec(c, p)
+	saslScannerCapacity(c, p, "C04.1")
 }
 
 // fieldStoredAt returns the value last stored into field f of the local struct al on this path.
